@@ -1,5 +1,5 @@
 // C01 - static_vector / inplace_vector / stack vs std::vector within capacity (DESIGN 4, C01)
-// Build: -DVF_ELEM=0|1|2|3|4 (int, pod, Tracked copy+move, Tracked move-only, type with an initializer_list constructor)  -DVF_CAPS=0,1,2,3
+// Build: -DVF_ELEM=0|1|2|3|4|5 (int, pod, Tracked copy+move, Tracked move-only, type with an initializer_list constructor, self-referential type)  -DVF_CAPS=0,1,2,3
 #include "vf.hpp"
 #include "vf_contract.hpp"
 #include "vf_tracked.hpp"
@@ -46,6 +46,28 @@ struct IL {
     friend bool operator>=(IL const& a, IL const& b) { return a.v >= b.v; }
 };
 inline int val(IL const& p) { return p.v; }
+// an element that knows its own address: trivially destructible, but every constructor re-seats `self`.  A container that copies or relocates
+// it bytewise (because "the destructor is trivial") leaves `self` pointing at the source, which val() reports as -4242.
+struct SR {
+    int v;
+    SR const* self;
+    SR() : v(0), self(this) { }
+    SR(int x) : v(x), self(this) { } // NOLINT
+    SR(SR const& o) : v(o.v), self(this) { }
+    auto operator=(SR const& o) -> SR&
+    {
+        v = o.v;
+        return *this;
+    }
+    friend bool operator==(SR const& a, SR const& b) { return a.v == b.v; }
+    friend bool operator!=(SR const& a, SR const& b) { return a.v != b.v; }
+    friend bool operator<(SR const& a, SR const& b) { return a.v < b.v; }
+    friend bool operator<=(SR const& a, SR const& b) { return a.v <= b.v; }
+    friend bool operator>(SR const& a, SR const& b) { return a.v > b.v; }
+    friend bool operator>=(SR const& a, SR const& b) { return a.v >= b.v; }
+};
+static_assert(std::is_trivially_destructible_v<SR> && !std::is_trivially_copy_constructible_v<SR> && !std::is_trivially_default_constructible_v<SR>);
+inline int val(SR const& p) { return p.self == &p ? p.v : -4242; }
 using vf::val;
 
 #if VF_ELEM == 0
@@ -64,9 +86,13 @@ inline T mkT(int v) { return T(v); }
 using T = vf::TMO;
 constexpr char const* TNAME = "tracked-move-only";
 inline T mkT(int v) { return T(v); }
-#else
+#elif VF_ELEM == 4
 using T = IL;
 constexpr char const* TNAME = "ilist-ctor";
+inline T mkT(int v) { return T(v); }
+#else
+using T = SR;
+constexpr char const* TNAME = "self-referential";
 inline T mkT(int v) { return T(v); }
 #endif
 // constructor ARGUMENTS (not a T) that build the element with value v: what emplace-style members must forward with "()" initialisation
@@ -130,7 +156,7 @@ struct HArr {
 };
 #if VF_ELEM == 0
 constexpr unsigned kHetKinds = 3;
-#elif VF_ELEM == 2 || VF_ELEM == 4
+#elif VF_ELEM == 2 || VF_ELEM == 4 || VF_ELEM == 5
 constexpr unsigned kHetKinds = 1;
 #else
 constexpr unsigned kHetKinds = 0;
@@ -153,7 +179,7 @@ void with_het(unsigned k, M const& s, F&& f)
         f(a.begin(), a.end());
         a.b.check("source range");
     }
-#elif VF_ELEM == 2 || VF_ELEM == 4
+#elif VF_ELEM == 2 || VF_ELEM == 4 || VF_ELEM == 5
     HArr<int> a(s);
     f(a.begin(), a.end());
     a.b.check("source range");
